@@ -384,7 +384,7 @@ func (pc *parentCfg) confirmAlone(k, idx int, m *Merged) (string, string) {
 	select {
 	case err := <-done:
 		base := filepath.Join(pc.outdir, fmt.Sprintf("%s-w%d-only%d", pc.phase, k, idx))
-		if err == nil && m.merge(base) {
+		if (err == nil || pc.phase == "race") && m.merge(base) {
 			return "ok", ""
 		}
 		return "died", tailFile(errPath, 6000)
@@ -445,7 +445,8 @@ func (pc *parentCfg) runPhase(m *Merged) {
 			}
 			base := filepath.Join(pc.outdir, fmt.Sprintf("%s-w%d%s", pc.phase, ps.k, suffix))
 			if exited {
-				if exitErr == nil && m.merge(base) {
+				// a race-detector build exits with status 66 when it reported races: the results are still complete
+				if (exitErr == nil || pc.phase == "race") && m.merge(base) {
 					ps.done = true
 					remaining--
 					continue
@@ -549,7 +550,21 @@ func loadKnown() KnownFile {
 // ---------------------------------------------------------------------------
 // race logs
 
-var raceFrameRe = regexp.MustCompile(`(?m)^\s+(github\.com/onheap/eval\.\S+)\(\)\s*$`)
+
+// racingFrame: the function performing the racing access of one stack of a race
+// report = the first frame that is not in the runtime.
+var anyFrameRe = regexp.MustCompile(`(?m)^\s+(\S+)\(\)\s*$`)
+
+func racingFrame(stack string) string {
+	for _, m := range anyFrameRe.FindAllStringSubmatch(stack, -1) {
+		f := m[1]
+		if strings.HasPrefix(f, "runtime.") || strings.HasPrefix(f, "internal/") || strings.HasPrefix(f, "sync/atomic.") {
+			continue
+		}
+		return f
+	}
+	return "?"
+}
 
 func collectRaceLogs(dir string, m *Merged) {
 	files, _ := filepath.Glob(filepath.Join(dir, "racelog.*"))
@@ -558,20 +573,27 @@ func collectRaceLogs(dir string, m *Merged) {
 		blocks := strings.Split(string(b), "WARNING: DATA RACE")
 		for _, blk := range blocks[1:] {
 			m.RaceReports++
-			// class: first eval frame of each of the two stacks
-			parts := strings.SplitN(blk, "Previous ", 2)
-			a, b2 := "?", "?"
-			if fr := raceFrameRe.FindStringSubmatch(parts[0]); fr != nil {
-				a = fr[1]
+			// the two access stacks come first; "Goroutine N created at" sections follow
+			body := blk
+			if i := strings.Index(body, "\nGoroutine "); i > 0 {
+				body = body[:i]
 			}
+			parts := strings.SplitN(body, "Previous ", 2)
+			a, b2 := racingFrame(parts[0]), "?"
 			if len(parts) > 1 {
-				if fr := raceFrameRe.FindStringSubmatch(parts[1]); fr != nil {
-					b2 = fr[1]
-				}
+				b2 = racingFrame(parts[1])
 			}
-			cl := []string{strings.TrimPrefix(a, "github.com/onheap/eval."), strings.TrimPrefix(b2, "github.com/onheap/eval.")}
-			sort.Strings(cl)
-			key := cl[0] + " <-> " + cl[1]
+			inEval := func(f string) bool { return strings.HasPrefix(f, "github.com/onheap/eval.") }
+			short := func(f string) string { return strings.TrimPrefix(f, "github.com/onheap/eval.") }
+			var key string
+			if !inEval(a) && !inEval(b2) {
+				// neither racing access is in onheap/eval code: harness-internal
+				key = "? <-> ?"
+			} else {
+				cl := []string{short(a), short(b2)}
+				sort.Strings(cl)
+				key = cl[0] + " <-> " + cl[1]
+			}
 			if _, ok := m.RaceClasses[key]; !ok {
 				if len(blk) > 6000 {
 					blk = blk[:6000]
